@@ -144,7 +144,13 @@ func genNyctMsg(t *rapid.T, zone string) (*rgen.Msg, int, int, bool) {
 		if len(prevNyct) > 0 && rapid.IntRange(0, 4).Draw(t, "sameTripIDOtherDay") == 0 {
 			// the same trip_id on another service day is another trip, with NYCT data of its own
 			pv := prevNyct[rapid.IntRange(0, len(prevNyct)-1).Draw(t, "sameTripIDAs")]
-			if *pv.StartDate != *d.StartDate {
+			clash := false
+			for _, o := range prevNyct { // no two trips of the message may end up with the same (trip_id, start date)
+				if *o.TripID == *pv.TripID && *o.StartDate == *d.StartDate {
+					clash = true
+				}
+			}
+			if !clash {
 				id = *pv.TripID
 				route = *pv.RouteID
 			}
